@@ -56,6 +56,16 @@ def run(ch: Choices, focus: str = "C11", params: Optional[dict] = None) -> dict:
     sub_models: List[dict] = []
     sub_problems = []
     if use_split:
+        if ch.chance(1, 3, "solver_before_split"):
+            # a realistic history: the problem was first given to a sequential solver (constructed, maybe run), then split
+            try:
+                s0 = nucsio.build_solver(problem, gen.DEFAULT_CONFIG)
+                if ch.chance(1, 2, "solver_before_split.run"):
+                    next(s0.solve(), None)
+            except Exception as e:
+                if classify_exception(e) == "harness":
+                    raise
+            out["probes"]["solver_constructed_before_split"] += 1
         before = snapshot_problem(problem)
         try:
             sub_problems = problem.split(k, svar)
